@@ -8,7 +8,7 @@ W=/var/tmp/mut-$name-$$
 rm -rf "$W" && mkdir -p "$W" && cp -r /repo "$W/repo" || exit 2
 python3 "$script" "$W/repo" || { echo "mutate: edit failed"; rm -rf "$W"; exit 2; }
 ( cd "$W/repo" && git diff --stat | tail -3 )
-export GOFLAGS=-mod=mod GOPROXY=off GOSUMDB=off GOTOOLCHAIN=local
+export GOFLAGS="-mod=mod -trimpath" GOPROXY=off GOSUMDB=off GOTOOLCHAIN=local
 if [ "${SKIP_BASELINE:-0}" != 1 ]; then
   ( cd "$W/repo" && go build ./... && go test -vet=off -count=1 ./... 2>&1 | grep -v "no test files" | grep -v "^ok" | head -20; echo "baseline-done" )
 fi
